@@ -104,6 +104,18 @@ def artifact(name, functions, constructor_body=None, filename=None):
 class Captured:
     def __init__(self):
         self.cex = []  # (path_id, Exec, panic_found, description)
+        self.solved = []  # one record per solver answer: path_id, ex, model, result, probe, fun
+        self.submitted = 0  # queries handed to the solver pool
+
+    def wait_solved(self, timeout=60.0):
+        """solver callbacks of in-target assertion probes are not awaited by run_contract: wait for
+        them (their reports are printed from the callback)"""
+        import time
+
+        t0 = time.time()
+        while len(self.solved) < self.submitted and time.time() - t0 < timeout:
+            time.sleep(0.01)
+        return len(self.solved) >= self.submitted
 
 
 @contextlib.contextmanager
@@ -117,13 +129,27 @@ def capture_cex(keep_exec=True):
 
     def wrapper(self, path_id, ex, panic_found, description=None):
         cap.cex.append({"path_id": path_id, "ex": ex if keep_exec else None, "panic": panic_found, "probe": self.is_probe, "fun": self.ctx.info.sig, "description": description})
-        return orig(self, path_id, ex, panic_found, description)
+        r = orig(self, path_id, ex, panic_found, description)
+        cap.submitted += 1
+        return r
+
+    orig_cb = M.CounterexampleHandler._solve_end_to_end_callback
+
+    def callback(self, future, ex, path_ctx, description):
+        try:
+            return orig_cb(self, future, ex, path_ctx, description)
+        finally:
+            so = next((o for o in reversed(list(self.ctx.solver_outputs)) if o.path_id == path_ctx.path_id), None)
+            cap.solved.append({"path_id": path_ctx.path_id, "ex": ex if keep_exec else None, "model": so.model if so else None, "result": str(so.result) if so else None,
+                               "probe": self.is_probe, "fun": self.ctx.info.sig})
 
     M.CounterexampleHandler.handle_assertion_violation = wrapper
+    M.CounterexampleHandler._solve_end_to_end_callback = callback
     try:
         yield cap
     finally:
         M.CounterexampleHandler.handle_assertion_violation = orig
+        M.CounterexampleHandler._solve_end_to_end_callback = orig_cb
 
 
 YICES = "/venv/bin/yices-smt2 --smt2-model-format --bvconst-in-decimal"
@@ -176,6 +202,7 @@ def run(test_cj, name="T", funsigs=None, args=None, others=None, contract_args=N
     with sym.LogCapture() as logs, capture_cex(keep_exec=bool(capture)) as cap, contextlib.redirect_stdout(out):
         # the unique-warning filter is process-global: clear it so that every run reports on its own
         results = M.run_contract(ctx)
+        cap.wait_solved()
     return RunResult(results, out.getvalue(), logs, cap, ctx)
 
 
